@@ -108,6 +108,23 @@ fn build_after_refusal(prev: &Message, m: &Message) -> Result<Result<Vec<u8>, St
     })
 }
 
+/// drops the last element of the first list in the tree; false when there is none to drop
+fn pop_first_seq(v: &mut V) -> bool {
+    match v {
+        V::Seq(xs) => xs.pop().is_some(),
+        V::Some(x) | V::Newtype(_, x) | V::NewtypeVariant(_, _, _, x) => pop_first_seq(x),
+        V::Struct(_, fs) => {
+            for (_, x) in fs.iter_mut() {
+                if first_seq_len(x).is_some() {
+                    return pop_first_seq(x);
+                }
+            }
+            false
+        }
+        _ => false,
+    }
+}
+
 fn first_seq_len(v: &V) -> Option<usize> {
     match v {
         V::Seq(xs) => Some(xs.len()),
@@ -163,6 +180,23 @@ fn check_list_frame(ctx: &mut Ctx, l: &ListLayout, n: usize, f: &[u8]) {
                                 format!("msg {} with {} elements: encoded right after a refused message the frame differs from the one a fresh builder gives: {} / {}", l.number, n, hex_short(&f3), hex_short(&f2)),
                                 rp(),
                             );
+                        }
+                    }
+                }
+                // the same list on a builder that has just built the list with one element fewer (the shorter frame's
+                // trailer sits where the new element goes; seeded change C15-R11)
+                if n >= 1 {
+                    if let Some(prev) = vtree::to_v(&d).ok().and_then(|mut v| if pop_first_seq(&mut v) { vtree::from_v::<Message>(&v).ok() } else { None }) {
+                        ctx.count("lists_encoded_right_after_the_list_one_shorter");
+                        if let Ok(Ok(f3)) = build_after_refusal(&prev, &d) {
+                            if f3 != f2 {
+                                ctx.violation(
+                                    format!("C15.same_order_and_content|{}|after_shorter_list", l.number),
+                                    "C15.same_order_and_content",
+                                    format!("msg {} with {} elements: encoded right after the same list with {} elements on one builder the frame differs from the one a fresh builder gives: {} / {}", l.number, n, n - 1, hex_short(&f3), hex_short(&f2)),
+                                    rp(),
+                                );
+                            }
                         }
                     }
                 }
